@@ -545,6 +545,22 @@ func buildIntrinsics() map[string]intrinsic {
 		e.unsupported("protoreflect.Value.Interface on " + tag)
 		return nil
 	}
+	m[prPkg+"ValueOfList"] = func(e *Engine, fr *frame, a []value) value { return pv(e, "list", a[0]) }
+	m["("+prPkg+"Value).List"] = func(e *Engine, fr *frame, a []value) value {
+		tag, p := pvTag(a[0])
+		if tag != "list" {
+			e.goPanic("protoreflect: value is not a list")
+		}
+		return p
+	}
+	m[prPkg+"ValueOfMessage"] = func(e *Engine, fr *frame, a []value) value { return pv(e, "message", a[0]) }
+	m["("+prPkg+"Value).Message"] = func(e *Engine, fr *frame, a []value) value {
+		tag, p := pvTag(a[0])
+		if tag != "message" {
+			e.goPanic("protoreflect: value is not a message")
+		}
+		return p
+	}
 	m["("+prPkg+"Value).Bool"] = func(e *Engine, fr *frame, a []value) value {
 		tag, p := pvTag(a[0])
 		if tag != "bool" {
